@@ -285,6 +285,59 @@ std::unique_ptr<ASTNode> clone_ast_node(const ASTNode *node) {
         cloned->body = clone_ast_node(node->body.get());
     }
 
+    // the remaining child pointers of ASTNode
+    if (node->third) {
+        cloned->third = clone_ast_node(node->third.get());
+    }
+    if (node->update_expr) {
+        cloned->update_expr = clone_ast_node(node->update_expr.get());
+    }
+    if (node->array_index) {
+        cloned->array_index = clone_ast_node(node->array_index.get());
+    }
+    if (node->array_size_expr) {
+        cloned->array_size_expr = clone_ast_node(node->array_size_expr.get());
+    }
+    if (node->try_body) {
+        cloned->try_body = clone_ast_node(node->try_body.get());
+    }
+    if (node->catch_body) {
+        cloned->catch_body = clone_ast_node(node->catch_body.get());
+    }
+    if (node->finally_body) {
+        cloned->finally_body = clone_ast_node(node->finally_body.get());
+    }
+    if (node->throw_expr) {
+        cloned->throw_expr = clone_ast_node(node->throw_expr.get());
+    }
+    if (node->switch_expr) {
+        cloned->switch_expr = clone_ast_node(node->switch_expr.get());
+    }
+    if (node->else_body) {
+        cloned->else_body = clone_ast_node(node->else_body.get());
+    }
+    if (node->case_body) {
+        cloned->case_body = clone_ast_node(node->case_body.get());
+    }
+    if (node->match_expr) {
+        cloned->match_expr = clone_ast_node(node->match_expr.get());
+    }
+    if (node->range_start) {
+        cloned->range_start = clone_ast_node(node->range_start.get());
+    }
+    if (node->range_end) {
+        cloned->range_end = clone_ast_node(node->range_end.get());
+    }
+    if (node->default_value) {
+        cloned->default_value = clone_ast_node(node->default_value.get());
+    }
+    if (node->new_array_size) {
+        cloned->new_array_size = clone_ast_node(node->new_array_size.get());
+    }
+    if (node->delete_expr) {
+        cloned->delete_expr = clone_ast_node(node->delete_expr.get());
+    }
+
     // ベクタをコピー
     for (const auto &stmt : node->statements) {
         cloned->statements.push_back(clone_ast_node(stmt.get()));
@@ -298,6 +351,113 @@ std::unique_ptr<ASTNode> clone_ast_node(const ASTNode *node) {
     for (const auto &case_node : node->cases) {
         cloned->cases.push_back(clone_ast_node(case_node.get()));
     }
+    // the remaining child vectors of ASTNode
+    for (const auto &child : node->children) {
+        cloned->children.push_back(clone_ast_node(child.get()));
+    }
+    for (const auto &child : node->array_dimensions) {
+        cloned->array_dimensions.push_back(clone_ast_node(child.get()));
+    }
+    for (const auto &child : node->array_indices) {
+        cloned->array_indices.push_back(clone_ast_node(child.get()));
+    }
+    for (const auto &child : node->impl_static_variables) {
+        cloned->impl_static_variables.push_back(clone_ast_node(child.get()));
+    }
+    for (const auto &child : node->case_values) {
+        cloned->case_values.push_back(clone_ast_node(child.get()));
+    }
+    for (const auto &child : node->lambda_params) {
+        cloned->lambda_params.push_back(clone_ast_node(child.get()));
+    }
+    for (const auto &child : node->interpolation_segments) {
+        cloned->interpolation_segments.push_back(clone_ast_node(child.get()));
+    }
+    // match arms own their bodies
+    for (const auto &arm : node->match_arms) {
+        MatchArm arm_copy;
+        arm_copy.pattern_type = arm.pattern_type;
+        arm_copy.variant_name = arm.variant_name;
+        arm_copy.bindings = arm.bindings;
+        arm_copy.enum_type_name = arm.enum_type_name;
+        arm_copy.body = clone_ast_node(arm.body.get());
+        cloned->match_arms.push_back(std::move(arm_copy));
+    }
+
+    // the remaining scalar members of ASTNode
+    cloned->location = node->location;
+    cloned->is_impl_static = node->is_impl_static;
+    cloned->is_array_return = node->is_array_return;
+    cloned->is_private_method = node->is_private_method;
+    cloned->is_async = node->is_async;
+    cloned->is_private_member = node->is_private_member;
+    cloned->is_default_member = node->is_default_member;
+    cloned->pointer_base_type = node->pointer_base_type;
+    cloned->is_rvalue_reference = node->is_rvalue_reference;
+    cloned->is_function_address = node->is_function_address;
+    cloned->function_address_name = node->function_address_name;
+    cloned->quad_value = node->quad_value;
+    cloned->is_float_literal = node->is_float_literal;
+    cloned->literal_type = node->literal_type;
+    cloned->literal_text = node->literal_text;
+    cloned->original_type_name = node->original_type_name;
+    cloned->return_types = node->return_types;
+    cloned->array_size = node->array_size;
+    cloned->array_type_info = node->array_type_info;
+    cloned->is_pointer_array_access = node->is_pointer_array_access;
+    cloned->module_name = node->module_name;
+    cloned->import_items = node->import_items;
+    cloned->import_aliases = node->import_aliases;
+    cloned->is_exported = node->is_exported;
+    cloned->is_default_export = node->is_default_export;
+    cloned->import_path = node->import_path;
+    cloned->exception_var = node->exception_var;
+    cloned->exception_type = node->exception_type;
+    cloned->qualified_name = node->qualified_name;
+    cloned->is_qualified_call = node->is_qualified_call;
+    cloned->is_arrow_call = node->is_arrow_call;
+    cloned->enum_name = node->enum_name;
+    cloned->enum_member = node->enum_member;
+    cloned->enum_definition = node->enum_definition;
+    cloned->union_name = node->union_name;
+    cloned->union_definition = node->union_definition;
+    cloned->member_chain = node->member_chain;
+    cloned->interface_name = node->interface_name;
+    cloned->struct_name = node->struct_name;
+    cloned->function_pointer_type = node->function_pointer_type;
+    cloned->is_function_pointer = node->is_function_pointer;
+    cloned->function_pointer_value = node->function_pointer_value;
+    cloned->array_pointer_type = node->array_pointer_type;
+    cloned->is_array_pointer = node->is_array_pointer;
+    cloned->is_pointer_const_qualifier = node->is_pointer_const_qualifier;
+    cloned->has_default_value = node->has_default_value;
+    cloned->first_default_param_index = node->first_default_param_index;
+    cloned->is_constructor = node->is_constructor;
+    cloned->is_destructor = node->is_destructor;
+    cloned->constructor_struct_name = node->constructor_struct_name;
+    cloned->is_async_function = node->is_async_function;
+    cloned->is_await_expression = node->is_await_expression;
+    cloned->is_discard = node->is_discard;
+    cloned->internal_name = node->internal_name;
+    cloned->is_lambda = node->is_lambda;
+    cloned->is_lambda_call = node->is_lambda_call;
+    cloned->lambda_return_type = node->lambda_return_type;
+    cloned->lambda_return_type_name = node->lambda_return_type_name;
+    cloned->generic_base_name = node->generic_base_name;
+    cloned->is_type_parameter = node->is_type_parameter;
+    cloned->type_parameter_name = node->type_parameter_name;
+    cloned->interface_bounds = node->interface_bounds;
+    cloned->is_type_parameter_access = node->is_type_parameter_access;
+    cloned->type_parameter_context = node->type_parameter_context;
+    cloned->is_interpolation_text = node->is_interpolation_text;
+    cloned->is_interpolation_expr = node->is_interpolation_expr;
+    cloned->interpolation_format = node->interpolation_format;
+    cloned->foreign_module_decl = node->foreign_module_decl;
+    cloned->foreign_function_decl = node->foreign_function_decl;
+    cloned->new_type_name = node->new_type_name;
+    cloned->new_type_info = node->new_type_info;
+    cloned->is_array_new = node->is_array_new;
+    cloned->sizeof_type_info = node->sizeof_type_info;
 
     // return_types配列をコピー
     // v0.13.0 CRITICAL: nodeポインタが破損している可能性がある
